@@ -663,14 +663,19 @@ def contract_base(c, post=False):
     return (((c.source_scope, c.requires), len(c.params), "old" if post else "cur"),)
 
 
-def havoc(ex, ctx, st, attr, mode, tracked):
-    """Replace heap[attr] per a modifies clause. mode: 'all' | 'others' (frame: tracked receivers keep theirs)."""
+def havoc(ex, ctx, st, attr, mode, tracked, recv=None):
+    """Replace heap[attr] per a modifies clause. mode: 'all' | 'others' (frame: the caller's tracked receivers keep
+    theirs -- ACYCLIC: evaluating something else never re-enters the object being evaluated -- EXCEPT when the
+    callee's own receiver is that object: a self-call does write the receiver's side results)."""
     from .exec import SPECIAL_SORTS, VArr
     old = ex.heap_get(st, attr)
     new = ctx.fresh(f"H_{attr.replace('$', 'S')}", old.sort(), tuple(st.idx))
     if mode == "others":
         for r in tracked:
-            ctx.assume(z3.Select(new, r) == z3.Select(old, r))
+            keep = z3.Select(new, r) == z3.Select(old, r)
+            if recv is not None:
+                keep = z3.Implies(r != recv, keep)
+            ctx.assume(keep)
     st.heap[attr] = new
 
 
@@ -708,7 +713,10 @@ def apply_contract(ex, ctx, st, c, args, kwargs, node):
     if not spec_mode:
         for m in c.modifies:
             attr, _, mode = m.partition("@")
-            havoc(ex, ctx, st, attr, mode or "all", st.tracked)
+            rcv = None
+            if c.kind in ("method", "property") and args and args[0].k == "ref":
+                rcv = args[0].t
+            havoc(ex, ctx, st, attr, mode or "all", st.tracked, rcv)
     elif c.modifies and not c.pure:
         pass  # spec mode: evaluators are observationally pure (results are functions of the epoch)
     # result
